@@ -16,8 +16,13 @@ class _File(object):
         self.close()
         return False
 
-    def read(self):
+    def read(self, size=-1):
         self.fs.reads.append(self.path)
+        if size is not None and size >= 0:
+            if self.buf is None:
+                self.buf = True
+                return self.fs.get(self.path)        # the model hands the whole (opaque) content to the first chunk read
+            return b'' if 'b' in self.mode else ''
         return self.fs.get(self.path)
 
     def write(self, data):
@@ -51,11 +56,19 @@ class _Path(object):
     def exists(self, p):
         return self.isfile(p) or self.isdir(p)
 
+    def getmtime(self, p):
+        i = self.fs.find(p)
+        if i < 0:
+            raise OSError('no such file')
+        return self.fs.mtimes[i]
+
 
 class FS(object):
     def __init__(self):
         self.files = []     # (path, content)
         self.sizes = []     # explicit (symbolic) size or None
+        self.mtimes = []    # logical modification stamps
+        self.stamp = 0
         self.dirs = []
         self.reads = []
         self.writes = []
@@ -74,6 +87,12 @@ class FS(object):
 
     def getenv(self, k, default=None):
         return self.environ.get(k, default)
+
+    def stat(self, p):
+        i = self.find(p)
+        if i < 0:
+            raise OSError('no such file')
+        return type('St', (), {'st_mtime': self.mtimes[i], 'st_mtime_ns': self.mtimes[i], 'st_size': self.sizes[i]})()
 
     # --- io / builtin open
     def open(self, path, mode='r', encoding=None):
@@ -97,12 +116,15 @@ class FS(object):
     def put(self, p, data, size=None):
         self.writes.append(p)
         i = self.find(p)
+        self.stamp += 1
         if i >= 0:
             self.files[i] = (p, data)
             self.sizes[i] = size
+            self.mtimes[i] = self.stamp
         else:
             self.files.append((p, data))
             self.sizes.append(size)
+            self.mtimes.append(self.stamp)
 
 
 def install_file_cassette(fs=None):
